@@ -244,9 +244,9 @@ def gen_system_op(rng, spec):
     if linear and r < 0.2:
         return dict(op='constraints', droptol=rng.choice([1e-12, 1e-6, 1e-2, 1.0]), cons=rng.choice(['none', 'bool', 'float']), cmask=[rng.random() < 0.3 for _ in range(n)], vseed=rng.randrange(1 << 30))
     if linear:
-        method = rng.choice([None, None, 'direct', 'direct_noatol', 'arnoldi', 'arnoldi', 'newton', 'linesearch', 'minimize', 'legacy_linear'])
+        method = rng.choice([None, None, 'direct', 'direct_noatol', 'arnoldi', 'arnoldi', 'newton', 'linesearch', 'minimize', 'legacy_linear', 'legacy_optimize', 'legacy_theta'])
     else:
-        method = rng.choice([None, 'newton', 'newton', 'reuse', 'linesearch', 'linesearch_median', 'minimize', 'pseudotime', 'legacy_newton', 'legacy_minimize'])
+        method = rng.choice([None, 'newton', 'newton', 'reuse', 'linesearch', 'linesearch_median', 'minimize', 'pseudotime', 'legacy_newton', 'legacy_minimize', 'legacy_optimize', 'legacy_pseudotime', 'legacy_theta'])
     op = dict(op='solve', method=method, cons=rng.choice(['none', 'none', 'bool', 'float']), cmask=[rng.random() < 0.3 for _ in range(n)],
               kappa=rng.choice([0., .5, 2., -1.]), guess=rng.choice(['none', 'rand', 'rand', 'far']), vseed=rng.randrange(1 << 30), maxiter=rng.choice([3, 10, 25, 60]), miniter=rng.choice([0, 0, 0, 1, 2]))
     op['tol'] = rng.choice([1e-10, 1e-8, 1e-5, 1e-2]) if (not linear or method not in (None, 'direct', 'legacy_linear') or rng.random() < 0.5) else 0.
@@ -467,7 +467,7 @@ def _method(op, system, spec):
     from nutils import solver
     m = op.get('method')
     tol = op.get('tol', 0.)
-    if m in (None, 'legacy_linear', 'legacy_newton', 'legacy_minimize'):
+    if m is None or m.startswith('legacy_'):
         return None
     if m == 'direct':
         return solver.Direct(atol=tol) if tol else solver.Direct()
@@ -586,8 +586,12 @@ def _do_solve(system, resfun, info, spec, op, constrain, cmask, cvals):
     tol = op.get('tol', 0.)
     m = op.get('method')
     linear = system.is_linear
-    if m in ('legacy_linear', 'legacy_newton') and spec['kind'] == 'linparam':
+    if m and m.startswith('legacy_') and spec['kind'] == 'linparam':
         return None, 'skipped'
+    if m in ('legacy_minimize', 'legacy_optimize') and not info['symmetric']:
+        return None, 'skipped'
+    if m == 'legacy_theta':
+        return _do_theta(spec, resfun, op, constrain, cmask, cvals, guess, want)
     if m == 'legacy_linear':
         # legacy wrapper: residual vector form
         u = solver.solve_linear('u', _legacy_residual(spec), constrain=constrain.get('u'), **({'lhs0': guess} if guess is not None else {}))
@@ -597,9 +601,15 @@ def _do_solve(system, resfun, info, spec, op, constrain, cmask, cvals):
         u = solver.newton('u', _legacy_residual(spec), constrain=constrain.get('u'), **({'lhs0': guess} if guess is not None else {})).solve(tol=tol, maxiter=op['maxiter'])
         out = {'u': u}
     elif m == 'legacy_minimize':
-        if not info['symmetric']:
-            return None, 'skipped'
-        return None, 'skipped'
+        u = solver.minimize('u', _legacy_functional(spec), constrain=constrain.get('u'), **({'lhs0': guess} if guess is not None else {})).solve(tol=tol, maxiter=op['maxiter'])
+        out = {'u': u}
+    elif m == 'legacy_optimize':
+        u = solver.optimize('u', _legacy_functional(spec), tol=tol, constrain=constrain.get('u'), **({'lhs0': guess} if guess is not None else {}))
+        out = {'u': u}
+    elif m == 'legacy_pseudotime':
+        uu = function.Argument('u', (n,))
+        u = solver.pseudotime('u', _legacy_residual(spec), uu, 1., constrain=constrain.get('u'), **({'lhs0': guess} if guess is not None else {})).solve(tol=tol, maxiter=op['maxiter'])
+        out = {'u': u}
     else:
         kw = dict(arguments=args, constrain=constrain, method=_method(op, system, spec))
         if tol:
@@ -637,6 +647,64 @@ def _do_solve(system, resfun, info, spec, op, constrain, cmask, cvals):
             bound = (max(tol, 1e-12) * 10 + 1e-9) * (1 + abs(u).max()) * min(cond, 1e16)
             if numpy.isfinite(cond) and cond < 1e6 and not (abs(u - u2) <= bound).all():
                 return ('M-initial-guess-dependence', f'linear solve from two initial guesses differs by {float(abs(u - u2).max()):.3e} (cond {cond:.1e})'), 'return'
+    return None, 'return'
+
+
+def _legacy_functional(spec):
+    from nutils import function
+    n = spec['n']
+    A = make_matrix(dict(spec['mat'], cplx=False))
+    r = numpy.random.RandomState(spec['sseed'])
+    b = r.randn(n)
+    c = spec['coef']
+    u = function.Argument('u', (n,))
+    S = (A + A.T) / 2
+    val = .5 * (u @ (function.Array.cast(S) @ u)) - function.Array.cast(b) @ u
+    if spec['kind'] == 'cubic':
+        val = val + c * numpy.sum(u**4) / 4
+    elif spec['kind'] == 'sqrt':
+        val = val + c * numpy.sum(numpy.sqrt(u + 2.))
+    return val
+
+
+def _do_theta(spec, resfun, op, constrain, cmask, cvals, guess, want):
+    '''legacy thetamethod: theta*r(u1) + (1-theta)*r(u0) + (u1-u0)/dt = 0 per step, certified step by step'''
+    from nutils import solver, function
+    n = spec['n']
+    theta = (0.5, 1.0)[op['vseed'] % 2]
+    dt = (0.5, 0.1)[(op['vseed'] // 2) % 2]
+    tol = op.get('tol') or 1e-8
+    u0 = guess if guess is not None else numpy.zeros(n)
+    if op['cons'] == 'float':
+        # initial condition consistent with the prescribed values
+        u0 = numpy.where(cmask, cvals, u0)
+    uu = function.Argument('u', (n,))
+    gen = solver.thetamethod('u', _legacy_residual(spec), uu, dt, theta, lhs0=u0.copy(), constrain=constrain.get('u'), newtontol=tol)
+    prev = None
+    fired0 = dict(PLAN.fired)
+    for istep, u in enumerate(gen):
+        u = numpy.asarray(u, dtype=float)
+        if istep == 0:
+            prev = u
+            continue
+        if PLAN.fired != fired0:
+            # a failed solve makes step() bisect the time step: the result then solves two half steps, not the one-step equation
+            fired0 = dict(PLAN.fired)
+            tol_here = 0.
+        else:
+            tol_here = tol
+        stepres = lambda U, p=prev, **kw: theta * resfun(U) + (1 - theta) * resfun(p) + (U - p) / dt
+        w = numpy.full(n, numpy.nan)
+        if op['cons'] == 'bool':
+            w[cmask] = prev[cmask]
+        elif op['cons'] == 'float':
+            w[cmask] = cvals[cmask]
+        bad = _certify(u, w, stepres, tol_here, f'thetamethod step {istep}', dt=dt, u0=prev)
+        if bad:
+            return bad, 'return'
+        prev = u
+        if istep >= 3:
+            break
     return None, 'return'
 
 
